@@ -422,6 +422,33 @@ fn gen_key(rng: &mut Rng) -> (Vec<u8>, &'static str) {
                 .collect();
             (v, "letters")
         }
+        9 if rng.chance(1, 2) => {
+            // obs-text (0x80..=0xFF) is legal field-content (RFC 9110 §5.5)
+            // and hyper passes it through; the digest is over these bytes as
+            // sent, whether or not they happen to be valid UTF-8
+            let v: Vec<u8> = match rng.below(5) {
+                0 => b"k\xE9y".to_vec(),
+                1 => "kéy-ключ-鍵".as_bytes().to_vec(),
+                2 => vec![0xC0, 0xAF, b'A', 0xFF, 0xFE],
+                3 => {
+                    let n = 1 + rng.usize(24);
+                    (0..n).map(|_| 0x80 + rng.below(128) as u8).collect()
+                }
+                _ => {
+                    let n = 2 + rng.usize(40);
+                    (0..n)
+                        .map(|_| {
+                            if rng.chance(1, 3) {
+                                0x80 + rng.below(128) as u8
+                            } else {
+                                TCHAR[rng.usize(TCHAR.len())]
+                            }
+                        })
+                        .collect()
+                }
+            };
+            (v, "obs-text")
+        }
         8 if rng.chance(1, 3) => {
             // field-content may hold SP / HTAB between visible characters
             // (RFC 9110 §5.5); the digest covers them like any other byte
@@ -583,7 +610,29 @@ const BAD_UPG: [Option<&str>; 6] = [
     Some("web-socket"),
     Some("TLS/1.0"),
 ];
-const BAD_VER: [Option<&str>; 4] = [None, Some("8"), Some("12"), Some("13, 8")];
+/// absent, other versions, and spellings that are not the token `13` of
+/// RFC 6455 §4.1/§11.3.5 (version = DIGIT | NZDIGIT DIGIT | "1" DIGIT DIGIT |
+/// "2" DIGIT DIGIT) although a lenient number parser reads 13 out of them
+const BAD_VER: [Option<&str>; 18] = [
+    None,
+    Some("8"),
+    Some("12"),
+    Some("13, 8"),
+    Some("14"),
+    Some("013"),
+    Some("0013"),
+    Some("+13"),
+    Some("+013"),
+    Some("13.0"),
+    Some("1_3"),
+    Some("0x0d"),
+    Some("0xD"),
+    Some("13 13"),
+    Some("1 3"),
+    Some("113"),
+    Some("130"),
+    Some("-13"),
+];
 
 #[derive(Clone, Debug)]
 struct Case {
@@ -1031,12 +1080,21 @@ impl Shard {
                 Some(g) if *g == lower => "digest-of-lower-cased-key",
                 Some(g) if *g == upper => "digest-of-upper-cased-key",
                 Some(g) if *g == ws_accept(&trimmed) => "digest-of-trimmed-key",
+                Some(g) if *g == ws_accept(String::from_utf8_lossy(key).as_bytes()) => {
+                    "digest-of-utf8-lossy-key"
+                }
                 Some(_) => "other",
                 None => "absent",
             };
+            let sig = if key.iter().any(|b| *b >= 0x80) {
+                "C20:accept-digest-mismatch:obs-text-key"
+            } else {
+                "C20:accept-digest-mismatch"
+            };
             self.rep.violate(
-                "C20:accept-digest-mismatch",
+                sig,
                 json!({"case": w, "expected": want, "got": got,
+                       "key_hex": key.iter().map(|b| format!("{b:02x}")).collect::<String>(),
                        "accept_header_count": acc.len(), "hint": hint}),
             );
             ok = false;
@@ -1390,9 +1448,10 @@ impl Shard {
         upg_sp: Sp,
         conn_lines: &[Vec<u8>],
         upg_lines: &[Vec<u8>],
+        key_class: &str,
     ) -> (String, Value) {
         if conn_sp == Sp::Plain && upg_sp == Sp::Plain {
-            return ("C20:complete-handshake-refused".to_string(), json!(null));
+            return (format!("C20:complete-handshake-refused:key-{key_class}"), json!(null));
         }
         let plain_u = vec![b"websocket".to_vec()];
         let plain_c = vec![b"Upgrade".to_vec()];
@@ -1405,6 +1464,13 @@ impl Shard {
         let class = match (pp, pc, pu) {
             (Some(101), Some(c), _) if c != 101 => format!("connection-{}", conn_sp.tag()),
             (Some(101), _, Some(u)) if u != 101 => format!("upgrade-{}", upg_sp.tag()),
+            // each spelling alone is accepted with an ordinary key
+            (Some(101), Some(101), Some(101)) if matches!(key_class, "obs-text" | "inner-blanks") => {
+                return (
+                    format!("C20:complete-handshake-refused:key-{key_class}"),
+                    attribution,
+                );
+            }
             (Some(101), Some(101), Some(101)) => {
                 format!("connection-{}+upgrade-{}", conn_sp.tag(), upg_sp.tag())
             }
@@ -1577,7 +1643,7 @@ impl Shard {
                 return;
             }
             let (sig, attribution) =
-                self.refusal_sig(conn_sp, upg_sp, &conn_lines_w, &upg_lines_w);
+                self.refusal_sig(conn_sp, upg_sp, &conn_lines_w, &upg_lines_w, case.key_class);
             self.rep.violate(
                 sig,
                 json!({"case": w, "status": resp.status, "headers": hdrs(&resp),
@@ -1773,7 +1839,7 @@ impl Shard {
                 Ok(resp) => {
                     self.rep.count("handshakes_refused", 1);
                     let (sig, attribution) =
-                        self.refusal_sig(m.sp.0, m.sp.1, &m.lines.0, &m.lines.1);
+                        self.refusal_sig(m.sp.0, m.sp.1, &m.lines.0, &m.lines.1, m.case.key_class);
                     self.rep.violate(
                         sig,
                         json!({"case": m.w, "status": resp.status, "body": esc(&resp.body),
